@@ -26,6 +26,9 @@ type seedMeta struct {
 	CaughtBy  string `json:"caught_by,omitempty"`
 	WhyMissed string `json:"why_missed,omitempty"`
 	Ran       string `json:"ran,omitempty"`
+	// CheckProperty: the claimed property whose check catches the seed when
+	// that is not the property the seed was written against
+	CheckProperty string `json:"check_property,omitempty"`
 }
 
 func loadSeeds(verif, prop string) []seedMeta {
@@ -44,7 +47,10 @@ func loadSeeds(verif, prop string) []seedMeta {
 		if m.ID == "" {
 			m.ID = filepath.Base(d)
 		}
-		if prop == "" || m.Property == prop {
+		if m.CheckProperty == "" {
+			m.CheckProperty = m.Property
+		}
+		if prop == "" || m.Property == prop || m.CheckProperty == prop {
 			out = append(out, m)
 		}
 	}
@@ -117,7 +123,7 @@ func runSelftest(repo, verif, prop string, timeout time.Duration) (total, caught
 			report = append(report, fmt.Sprintf("%s: %v", m.ID, err))
 			continue
 		}
-		cs := selectContracts(e, func(c *Contract) bool { return propsContain(c.Props, m.Property) || clauseProps(c, m.Property) })
+		cs := selectContracts(e, func(c *Contract) bool { return propsContain(c.Props, m.CheckProperty) || clauseProps(c, m.CheckProperty) })
 		work, _ := os.MkdirTemp("", "gvc-selftest")
 		d := &Discharger{workDir: work, timeout: timeout, sem: make(chan struct{}, 10)}
 		results, err := verifyContracts(e, cs, d)
@@ -133,7 +139,7 @@ func runSelftest(repo, verif, prop string, timeout time.Duration) (total, caught
 				failed = append(failed, "unit rejected: "+trimPkg(r.Contract.Short))
 			}
 			for _, o := range r.Obligs {
-				if o.Cover || o.MustFail || !propsContain(o.Props, m.Property) {
+				if o.Cover || o.MustFail || !propsContain(o.Props, m.CheckProperty) {
 					continue
 				}
 				if o.Status != "unsat" && o.Status != "unsat1" {
